@@ -577,6 +577,27 @@ pub(crate) fn post_acquire_point(ctx: &Ctx) {
   }
 }
 
+static RELEASE_POINTS: std::sync::atomic::AtomicBool = std::sync::atomic::AtomicBool::new(false);
+
+/// Also make the moment just before a lock is released a scheduling point. Only code that
+/// uses try_lock-style operations can tell "still held" from "just released", so the
+/// harness switches this on exactly for such code (it costs about half as many steps again).
+pub fn set_release_points(on: bool) {
+  RELEASE_POINTS.store(on, std::sync::atomic::Ordering::SeqCst);
+}
+
+pub(crate) fn pre_release_point(ctx: &Ctx) {
+  if RELEASE_POINTS.load(std::sync::atomic::Ordering::Relaxed) && !std::thread::panicking() {
+    let live = {
+      let st = lock_state(&ctx.exec);
+      !st.aborted && st.threads.iter().filter(|t| !t.finished).count() > 1
+    };
+    if live {
+      let _ = sched_point(Wait::Run);
+    }
+  }
+}
+
 /// non-blocking acquisition: a scheduling point, then the model decides at once
 pub(crate) enum TryMode {
   Granted(Ctx),
@@ -1110,7 +1131,12 @@ pub fn park(timeout_ns: Option<u64>) {
   if let Some(ctx) = current() {
     let dl = {
       let mut st = lock_state(&ctx.exec);
-      if st.threads[ctx.tid].park_token {
+      // "park may also return spuriously": under schedules with spurious wake-ups some
+      // parks return at once, token or not
+      let spurious = st.sched.spurious && splitmix(&mut st.sched.rng) % 100 < 15;
+      if spurious {
+        None
+      } else if st.threads[ctx.tid].park_token {
         st.threads[ctx.tid].park_token = false;
         None
       } else {
